@@ -511,6 +511,22 @@ pub fn run(tier: &str, c10: bool) -> i32 {
         });
         retry_evals += a5.iter().map(|a| a.evals).sum::<u64>();
     }
+    // dosed redundancy: the first block ends at every offset around 32 KiB (C10: Fixed and Default
+    // strategies at levels 2/6/9; C01: levels 2, 6, 9)
+    {
+        let fam = corpus::fat_edge_inputs(th);
+        let lv: Vec<u8> = vec![2, 6, 9];
+        let cf: Vec<Cfg> = cfgs_all.iter().filter(|c| c.wbits == 15 && c.ctor == 0 && !c.zlib && [2u8, 6, 9].contains(&c.level) && (c.strat == 4 || c.strat == 0)).cloned().collect();
+        let a6 = par_for(fam.len(), Acc::new, |i, acc| {
+            watchdog::tick(5_000_000 + i as u64, 0);
+            if c10 {
+                c10_case(&fam[i], &cf, acc, &rep, false);
+            } else {
+                c01_case(&fam[i], &lv, acc, &rep, false);
+            }
+        });
+        retry_evals += a6.iter().map(|a| a.evals).sum::<u64>();
+    }
     // 64 fixed inputs x all 256 levels (C01)
     let mut all_levels_evals = 0u64;
     if !c10 {
